@@ -65,7 +65,7 @@ def task(logdir, call, i, need, child):
 
 def run_node(logdir, tree, path):
     from joblib import Parallel, delayed
-    kw = {"n_jobs": tree["n_jobs"]}
+    kw = {} if tree["n_jobs"] is None else {"n_jobs": tree["n_jobs"]}
     if tree["backend"] is not None:
         kw["backend"] = tree["backend"]
     info = {"e": "call", "path": path, "pid": os.getpid(), "tid": threading.get_ident()}
@@ -78,8 +78,8 @@ def run_node(logdir, tree, path):
                 log(logdir, info)
                 need = min(eff, tree["ntasks"])
                 p(delayed(task)(logdir, path, i, need, tree["child"]) for i in range(tree["ntasks"]))
-    except ValueError as e:
-        log(logdir, dict(info, **{"raise": "ValueError", "msg": str(e)[:100]}))
+    except Exception as e:  # ValueError for n_jobs=0; anything else is reported, not hidden
+        log(logdir, dict(info, **{"raise": type(e).__name__, "msg": str(e)[:100]}))
 
 
 def run_seq(logdir, spec):
